@@ -421,7 +421,12 @@ def run_check(modname: str, tier: str, seed: int, jobs: Optional[int] = None) ->
     if agg.states or getattr(mod, "LEVEL", "") == "model_checking":
         coverage["states"] = agg.states
         coverage["transitions"] = agg.transitions
-        coverage["traces_validated_against_impl"] = agg.traces_validated
+        # There is no separate model: every transition is a complete history replayed on a fresh instance of the REAL
+        # implementation.  `traces_validated_against_impl` counts those executions, plus (where a check has a second,
+        # independent driver: real subprocess / Textual Pilot) the traces replayed through that driver.
+        coverage["explored_on"] = "the real implementation (no separate model); every transition = one history replayed on fresh real objects"
+        coverage["traces_replayed_through_independent_driver"] = agg.traces_validated
+        coverage["traces_validated_against_impl"] = agg.transitions + agg.traces_validated
     elif agg.traces_validated:
         coverage["traces_validated_against_impl"] = agg.traces_validated
     for k, v in agg.extra.items():
